@@ -153,9 +153,7 @@ def replay(hist, oracles=("wf",), pre=None, post=None, keep_world=False, queries
         except (RecursionError, OpTimeout):
             res = [1, 8]
         except Exception as e:  # every op's own failure is an observation
-            res = [1, H.err_class(e)]
-            if isinstance(e, CallbackFault):
-                res = [1, 8]
+            res = mut.outcome_of(e)
         finally:
             sys.setrecursionlimit(_old)
         after = w.obs()
@@ -172,6 +170,11 @@ def replay(hist, oracles=("wf",), pre=None, post=None, keep_world=False, queries
             run.fails.append((si, "wf", "wf: an oracle / observation did not terminate (cycle in the node graph)"))
         if queries:
             sprinkle_queries(w)
+            try:
+                with time_limit(5.0):
+                    mut.hostile_queries(w)      # the caller destroys every list / dict the queries hand back
+            except OpTimeout:
+                pass
         state["before"] = after
 
     for op in hist["ops"]:
